@@ -8,6 +8,13 @@ cp /repo/Cargo.lock rs2lean/Cargo.lock
 # translator: regenerate lean/RxModel/Gen/*.lean from the current /repo/src (a failure here is reported by the
 # checks as a broken tie, it must not stop the setup)
 (cd rs2lean && cargo build --release --offline)
-./rs2lean/target/release/rs2lean /repo/src lean/RxModel/Gen || echo "rs2lean: some observers could not be translated"
+# (the subject family needs the compiler's own macro expansion: nightly -Zunpretty=expanded; without a nightly
+# toolchain those two modules keep their committed text and their ties are skipped by the checks)
+mkdir -p work
+EXP=""
+if cargo +nightly --version >/dev/null 2>&1; then
+  if CARGO_TARGET_DIR=work/expand-target cargo +nightly rustc --offline --manifest-path /repo/Cargo.toml --lib --no-default-features --features futures-scheduler -- -Zunpretty=expanded > work/expanded_setup.rs 2>/dev/null; then EXP=work/expanded_setup.rs; fi
+fi
+./rs2lean/target/release/rs2lean /repo/src lean/RxModel/Gen $EXP || echo "rs2lean: some observers could not be translated"
 (cd lean && lake build) || { echo "lake build: failures (reported per property by ./check)"; (cd lean && lake build rxdriver); }
 (cd harness && cargo build --release --offline)
